@@ -94,6 +94,15 @@ func c14Tables() []c10Table {
 			t.AddRowItems(a, b)
 			t.AddRowItems("plain", "y")
 		}},
+		c10Table{"twin texts: plain cells and size-declaring items with the SAME text, equal texts in several cells, a cell equal to its header", func(t tabular.Table) {
+			t.AddHeaders("tw", "wide-header")
+			w, _ := mkItem(mS|mW, false, ItemF{S: "tw", W: 5})
+			h, _ := mkItem(mS|mH, false, ItemF{S: "tw", H: 2})
+			t.AddRowItems("tw", "tw")
+			t.AddRowItems(w, h)
+			t.AddRowItems("tw", w)
+			t.AddRowItems("tw", "tw")
+		}},
 	)
 	return ts
 }
